@@ -1672,7 +1672,6 @@ func residualCycle(comp []*ssa.BasicBlock, inComp, cut map[*ssa.BasicBlock]bool)
 	return found
 }
 
-
 // overDecrement: a path from the entry of guard function fn to a return on
 // which the depth field is decremented more than once (deferred closures that
 // decrement count at the point where they are registered).
